@@ -18,6 +18,7 @@ RULE = ("random network (expression, truth-table, lattice, networks with constan
 ASSUMPTIONS = ["E2: AEON BDD restriction decides constancy on a subspace; E3: AEON Percolation.percolate_subspace"]
 
 
+
 def budget(tier):
     return 1200 if tier == "quick" else 12000
 
